@@ -21,7 +21,9 @@ from pathlib import Path
 
 VERIF = Path(__file__).resolve().parent.parent
 REPO = Path(os.environ.get("VERIF_REPO", "/repo"))
-COQ = VERIF / "coq"
+# developer-only: scratch runs against a patched tree (VERIF_REPO) work on a private COPY of the Coq tree (VERIF_COQ), so that
+# the Gen/*.v regenerated from the patched source never land in /verif/coq; the registered commands set neither variable
+COQ = Path(os.environ["VERIF_COQ"]) if os.environ.get("VERIF_COQ") and os.environ.get("VERIF_REPO") else VERIF / "coq"
 GUARD = "PYDROBERT_TORCH_VERIF"
 
 STD_AXIOMS_OK = {
